@@ -4,6 +4,14 @@
 (* included) with a weight vector; the actions add / remove an edge or       *)
 (* change a weight, so the reachable states are all graphs on 1..MCN (with   *)
 (* unit weights) and all acyclic ones with all weight vectors over 1..MCW.   *)
+(*                                                                           *)
+(* Second specification (ObjSpec): the graph OBJECT of Dag.tla as a state     *)
+(* machine -- node set mcV, edge set mcE, the public mutators add_node /      *)
+(* add_child / remove as actions, mcLast = the mutator call that produced the *)
+(* state.  TLC checks that the machine stays a graph and that renaming a      *)
+(* shrunken node set to 1..|V| commutes with the definitions; its dumped      *)
+(* state graph is the generator of the mutate / query walks that the harness  *)
+(* replays on real objects (every query judged by DagTrace at its version).   *)
 EXTENDS Dag
 
 CONSTANTS MCN,      \* number of nodes of the universe
@@ -11,12 +19,14 @@ CONSTANTS MCN,      \* number of nodes of the universe
           MCLoops,  \* BOOLEAN: self-loops <<a, a>> belong to the universe
           MCUpper   \* BOOLEAN: only edges <<a, b>> with a < b (every DAG up to renaming)
 
-VARIABLES mcE, mcW
-mcvars == <<mcE, mcW>>
+VARIABLES mcE, mcW,
+          mcV,      \* ObjSpec: the current node set (MCSpec: always 1..MCN)
+          mcLast    \* ObjSpec: the mutator call that led here (MCSpec: <<>>)
+mcvars == <<mcE, mcW, mcV, mcLast>>
 
 Ones == [v \in Nodes(MCN) |-> 1]
 
-MCInit == mcE = {} /\ mcW = Ones
+MCInit == mcE = {} /\ mcW = Ones /\ mcV = Nodes(MCN) /\ mcLast = <<>>
 
 \* Edges change on unit-weight states only, weights on acyclic graphs only: the
 \* reachable states are every graph on 1..MCN with unit weights plus every
@@ -27,16 +37,16 @@ AddEdge(a, b) ==
     /\ (a = b) => MCLoops
     /\ MCUpper => a < b
     /\ mcE' = mcE \cup {<<a, b>>}
-    /\ UNCHANGED mcW
+    /\ UNCHANGED <<mcW, mcV, mcLast>>
 DelEdge(a, b) ==
     /\ mcW = Ones
     /\ <<a, b>> \in mcE
     /\ mcE' = mcE \ {<<a, b>>}
-    /\ UNCHANGED mcW
+    /\ UNCHANGED <<mcW, mcV, mcLast>>
 SetWeight(v, k) ==
     /\ mcW[v] # k
     /\ mcW' = [mcW EXCEPT ![v] = k]
-    /\ UNCHANGED mcE
+    /\ UNCHANGED <<mcE, mcV, mcLast>>
 Reweigh == IsDag(MCN, mcE) /\ \E v \in Nodes(MCN), k \in 1..MCW : SetWeight(v, k)
 MCNext == (\E a, b \in Nodes(MCN) : AddEdge(a, b) \/ DelEdge(a, b)) \/ Reweigh
 MCSpec == MCInit /\ [][MCNext]_mcvars
@@ -78,7 +88,23 @@ Chain(q) == \A i \in 1..(Len(q) - 1) : <<q[i], q[i + 1]>> \in mcE
 MC_Depth ==
     (Shape /\ Acyclic) =>
         LET t == DepthTable(MCN, mcE)
+            tmin == MinDepthTable(MCN, mcE)
+            \* chains that start at a source and end in v
+            FromSource(v) == {r \in MCSeqs : Len(r) >= 1 /\ r[Len(r)] = v /\ Chain(r)
+                                              /\ r[1] \in Sources(MCN, mcE)}
         IN  /\ DOMAIN t = Nodes(MCN)
+            /\ DOMAIN tmin = Nodes(MCN)
+            \* func=min: table = recursion over parents = number of nodes of the
+            \* shortest chain from a source; never above the (max) depth, equal to it
+            \* when all chains from sources to the node have one length
+            /\ \A v \in Nodes(MCN) :
+                  /\ tmin[v] = MinDepthDef(mcE, v)
+                  /\ tmin[v] = MinDepth(MCN, mcE, v)
+                  /\ tmin[v] = MinOf({Len(q) : q \in FromSource(v)})
+                  /\ t[v] = Max0({Len(q) : q \in FromSource(v)})
+                  /\ tmin[v] <= t[v]
+                  /\ (tmin[v] = 1 <=> v \in Sources(MCN, mcE))
+                  /\ \A p \in Pred(mcE, v) : tmin[v] <= tmin[p] + 1
             /\ \A v \in Nodes(MCN) :
                   /\ t[v] = DepthDef(mcE, v)
                   /\ t[v] = Depth(MCN, mcE, v)
@@ -133,4 +159,76 @@ MC_Traversals ==
         /\ Sources(MCN, mcE) # {} /\ Sinks(MCN, mcE) # {}
         /\ Closure(mcE, Sources(MCN, mcE)) = Nodes(MCN)
         /\ \A s \in MCPerms : DfsAllOK(MCN, mcE, s)
+
+-----------------------------------------------------------------------------
+(* ObjSpec: the mutable graph object *)
+
+ObjG == [V |-> mcV, E |-> mcE]
+ObjInit == mcV = {} /\ mcE = {} /\ mcW = Ones /\ mcLast = <<>>
+ObjSet(G, call) == mcV' = G.V /\ mcE' = G.E /\ mcLast' = call /\ UNCHANGED mcW
+
+ObjAddNode(v) == ObjSet(AddNodeG(ObjG, v), <<"add_node", v, 0>>)
+ObjAddChild(a, c) ==
+    /\ (a = c) => MCLoops
+    /\ CanAddChild(ObjG, a, c)
+    /\ ObjSet(AddChildG(ObjG, a, c), <<"add_child", a, c>>)
+ObjRemove(v) == CanRemove(ObjG, v) /\ ObjSet(RemoveG(ObjG, v), <<"remove", v, 0>>)
+ObjNext == \/ \E a \in Nodes(MCN) : ObjAddNode(a) \/ ObjRemove(a)
+           \/ \E a, c \in Nodes(MCN) : ObjAddChild(a, c)
+ObjSpec == ObjInit /\ [][ObjNext]_mcvars
+
+ObjTypeOK == mcV \subseteq Nodes(MCN) /\ WellFormedG(ObjG) /\ mcW = Ones
+
+\* the call recorded in mcLast explains the state: what it added is there, what it
+\* removed is gone
+Obj_LastExplains ==
+    \/ mcLast = <<>> /\ mcV = {} /\ mcE = {}
+    \/ mcLast[1] = "add_node" /\ mcLast[2] \in mcV
+    \/ mcLast[1] = "add_child" /\ <<mcLast[2], mcLast[3]>> \in mcE
+    \/ mcLast[1] = "remove" /\ mcLast[2] \notin mcV
+
+\* Renaming the node set to 1..|V| by rank is a graph isomorphism, and the notions
+\* that are defined without reference to 1..n commute with it.  (This is what
+\* allows DagTrace to judge queries asked after a removal with the definitions
+\* written for node sets 1..n.)
+Obj_CompactFaithful ==
+    LET V  == mcV
+        k  == Cardinality(V)
+        E2 == CompactE(ObjG)
+        R(S) == {Rank(V, x) : x \in S}
+    IN  /\ WellFormed(k, E2)
+        /\ R(V) = Nodes(k)
+        /\ \A v \in V : Unrank(V, Rank(V, v)) = v
+        /\ \A v \in Nodes(MCN) \ V : Rank(V, v) = 0
+        /\ \A a, b \in V : a < b <=> Rank(V, a) < Rank(V, b)
+        /\ Cardinality(E2) = Cardinality(mcE)
+        /\ \A a, b \in V : <<a, b>> \in mcE <=> <<Rank(V, a), Rank(V, b)>> \in E2
+        /\ IsCompact(V) => E2 = mcE
+        /\ \A v \in V :
+              /\ R(Reach(mcE, v)) = Reach(E2, Rank(V, v))
+              /\ R(Pred(mcE, v)) = Pred(E2, Rank(V, v))
+              /\ R(Succ(mcE, v)) = Succ(E2, Rank(V, v))
+        /\ R({v \in V : Pred(mcE, v) = {}}) = Sources(k, E2)
+        /\ R({v \in V : Succ(mcE, v) = {}}) = Sinks(k, E2)
+        /\ HasCycle(k, E2) <=> (\E S \in SUBSET V : S # {} /\ \A a \in S : Succ(mcE, a) \cap S # {})
+        /\ IsDag(k, E2) =>
+              \A v \in V : /\ DepthDef(mcE, v) = Depth(k, E2, Rank(V, v))
+                            /\ MinDepthDef(mcE, v) = MinDepth(k, E2, Rank(V, v))
+
+\* what a mutator may and may not change
+Obj_Mutators ==
+    \A a, c \in Nodes(MCN) :
+        /\ AddNodeG(ObjG, a).E = mcE
+        /\ a \in mcV => AddNodeG(ObjG, a) = ObjG
+        /\ CanAddChild(ObjG, a, c) =>
+              LET H == AddChildG(ObjG, a, c)
+              IN  /\ WellFormedG(H) /\ H.E \ mcE = {<<a, c>>} /\ H.V \ mcV \subseteq {c}
+                  /\ c \in Reach(H.E, a)
+        /\ CanRemove(ObjG, a) =>
+              LET H == RemoveG(ObjG, a)
+              IN  /\ WellFormedG(H) /\ H.V = mcV \ {a}
+                  /\ H.E = {e \in mcE : e[1] # a /\ e[2] # a}
+                  /\ \A v \in H.V : Reach(H.E, v) = Reach(mcE, v)
+        \* removing a node that has a parent would leave a dangling edge
+        /\ (a \in mcV /\ Pred(mcE, a) \ {a} # {}) => ~WellFormedG(RemoveG(ObjG, a))
 =============================================================================
